@@ -630,11 +630,13 @@ func c12Comments(m *meta, r *rand.Rand, n int) {
 		cb := pkg.NewFunc(nil, "f", nil, nil, false).BodyStart(pkg)
 		tyInt := types.Typ[types.Int]
 		cnt := 0
+		var set []string
 		var emit func(depth int)
 		comment := func() {
 			if r.Intn(3) > 0 {
 				cnt++
-				cb.SetComments(&ast.CommentGroup{List: []*ast.Comment{{Text: fmt.Sprintf("// c%d", cnt)}}}, true)
+				set = append(set, fmt.Sprintf("// c%d", cnt))
+				cb.SetComments(&ast.CommentGroup{List: []*ast.Comment{{Text: fmt.Sprintf("\n// c%d", cnt)}}}, true) // the client convention: the text starts on a new line
 			} else {
 				cnt++ // numbering stays aligned with statements
 			}
@@ -713,6 +715,32 @@ func c12Comments(m *meta, r *rand.Rand, n int) {
 			}
 			if !ok {
 				m.Direct = append(m.Direct, directViolation{Case: k, What: fmt.Sprintf("comment %q is not directly before its statement (next line %q)", t, next), Replay: c12Case{Stream: "comments", Text: out.String()}})
+				break
+			}
+		}
+		// canonical form: the standard formatter indents the comment with its statement
+		if fo, err := format.Source(out.Bytes()); err == nil && string(fo) != out.String() {
+			norm := func(s string) string {
+				ls := strings.Split(s, "\n")
+				for i, l := range ls {
+					if strings.HasPrefix(strings.TrimSpace(l), "//") {
+						ls[i] = strings.TrimSpace(l)
+					}
+				}
+				return strings.Join(ls, "\n")
+			}
+			dv := directViolation{Case: k, What: "a function with statement comments is not a fixed point of go/format", Replay: c12Case{Stream: "comments-gofmt", Text: out.String(), Got: string(fo)}}
+			if norm(string(fo)) == norm(out.String()) {
+				one := 1
+				dv.Class = &one
+				dv.What = "statement comments are printed at column 0 instead of the statement's indentation: the text is not a fixed point of go/format"
+				m.Known["1"]++
+			}
+			m.Direct = append(m.Direct, dv)
+		}
+		for _, t := range set {
+			if seen[t] == 0 {
+				m.Direct = append(m.Direct, directViolation{Case: k, What: fmt.Sprintf("comment %q attached to a statement is not printed", t), Replay: c12Case{Stream: "comments", Text: out.String()}})
 				break
 			}
 		}
